@@ -319,7 +319,7 @@ def bracket_hash(eng, st, self_sv, study, trial):
     return SV(KInt, h - (h / total) * total)
 
 
-R.spec(HB, "HyperbandPruner._get_bracket_id", props=["C16"], types={"study": "Study", "trial": "FrozenTrial"},
+R.spec(HB, "HyperbandPruner._get_bracket_id", props=["C16", "C09"], types={"study": "Study", "trial": "FrozenTrial"},
        returns_kind="int",
        requires=["prefix_axioms(self)", "self._n_brackets is not None and self._n_brackets == len(self._trial_allocation_budgets)",
                  "len(self._pruners) == 0 or len(self._pruners) == self._n_brackets",
